@@ -160,6 +160,25 @@ def wider_more_lines_cheaper_break_kind(fail):
     return fail.get("kind") == "wider_more_lines" and fail.get("narrow_overflows") is False and fail.get("narrow_expensive_break") is True
 
 
+def overflow_only_by_a_line_start_token(fail):
+    """F46: every over-long line of the wider result is over-long already with its FIRST token alone (indentation + that token exceed
+    the limit): the search never charges the token that starts a line (C11_line_start_overflow_is_free_witness), so at the wider limit
+    it prefers cheap breaks whose last line begins past the limit to the expensive break that fits"""
+    if fail.get("kind") != "fits_not_monotone" or not fail.get("over_lines") or fail.get("over_count", 0) > len(fail["over_lines"]):
+        return False
+    from . import gen as _g
+    w = fail.get("wide")
+    for prev, line in fail["over_lines"]:
+        body = line.lstrip(" \t")
+        toks = [t for k, t in _g.tokenize(body) if k != "ws"]
+        if not toks:
+            return False
+        ind = len(line.encode("utf-8")) - len(body.encode("utf-8"))
+        if ind + len(toks[0].encode("utf-8")) <= w:
+            return False
+    return True
+
+
 def overflow_by_closers_after_line_comment(fail):
     """F30: a continuation line that follows a trailing `//` comment and holds an inline child line
     (`(A, B);` of a variant-record arm, an anonymous routine ...) exceeds the limit only by its closing
@@ -206,7 +225,7 @@ def witness_inputs(prop):
     return out
 
 
-DETECTORS = {f.__name__: f for f in [wider_more_lines_only_by_a_kept_blank_line, equal_penalty_solutions, line_without_solution, children_of_voided_parent, first_member_named_like_class_modifier, anonymous_routine_inside_raise, comment_between_control_keyword_and_begin, config_value_coerced, nested_anonymous_routines_unclosed_paren, lone_cr_after_line_comment, overflow_by_closers_after_line_comment, wider_more_lines_in_overflow_regime, wider_more_lines_cheaper_break_kind, mlstring_width_dependence,
+DETECTORS = {f.__name__: f for f in [overflow_only_by_a_line_start_token, wider_more_lines_only_by_a_kept_blank_line, equal_penalty_solutions, line_without_solution, children_of_voided_parent, first_member_named_like_class_modifier, anonymous_routine_inside_raise, comment_between_control_keyword_and_begin, config_value_coerced, nested_anonymous_routines_unclosed_paren, lone_cr_after_line_comment, overflow_by_closers_after_line_comment, wider_more_lines_in_overflow_regime, wider_more_lines_cheaper_break_kind, mlstring_width_dependence,
     cr_after_line_comment_in_region, literal_then_gap, mlstring_in_child_line_reflow,
     trailing_exotic_blank_in_line_comment, unterminated_literal_trailing_blank, continuation_saturates,
     nesting_depth, cursor_mid_char_changed_token, cursor_u16_truncation, mlstring_last_terminator_lone_cr,
